@@ -143,6 +143,17 @@ fn apply(r: &RefOnt, e: &Edit) -> RefOnt {
     n
 }
 
+/// the same ontology through the Builder (no flags expressible there), annotation facts descendant-first
+fn build_via_builder(r: &RefOnt) -> Option<Ontology> {
+    if r.terms.values().any(|t| t.obsolete || t.replacement.is_some()) {
+        return None;
+    }
+    let mut f = r.to_facts();
+    // supply deeper terms' annotations first (number of ancestors descending), then by id
+    f.anns.sort_by_key(|a| (std::cmp::Reverse(a.term.map(|t| r.terms[&t].ancestors.len()).unwrap_or(0)), a.kind, a.id));
+    drive::build(&f, crate::model::Mode::Defaults).ok()
+}
+
 fn build(r: &RefOnt) -> Result<Ontology, String> {
     let f = r.to_facts();
     match drive::from_bytes(&encode::encode(&f, &EncOpts::v(3))) {
@@ -337,6 +348,18 @@ fn compare_pair(ctx: &mut Ctx, a: &RefOnt, oa: &Ontology, b: &RefOnt, history: &
             if same != Report::default() {
                 ctx.violation("Ontology::compare", "comparing an ontology with itself reports differences", json!({"case": case(), "observed": format!("{same:?}")}));
             }
+            // the same pair built through the Builder API
+            if let (Some(ba), Some(bb)) = (build_via_builder(a), build_via_builder(b)) {
+                ctx.exec();
+                match guard(|| observe(&ba, &bb)) {
+                    Ok(rep) => {
+                        if let Some((site, sig, det)) = first_difference(&rep, &expected(a, b)) {
+                            ctx.violation(&site, &format!("[Builder-built ontologies] {sig}"), json!({"case": case(), "difference": det}));
+                        }
+                    }
+                    Err(p) => ctx.violation("Ontology::compare", "[Builder-built ontologies] panics", json!({"case": case(), "observed": p})),
+                }
+            }
             ctx.outcome(crate::ctx::fnv_str(&format!("{fwd:?}")));
         }
     }
@@ -344,7 +367,7 @@ fn compare_pair(ctx: &mut Ctx, a: &RefOnt, oa: &Ontology, b: &RefOnt, history: &
 
 pub fn run(ctx: &mut Ctx) {
     let thorough = ctx.tier.thorough();
-    ctx.rule = "case = (base ontology, first edit) with every applicable second edit; all edit sequences of length 0, 1, 2 (thorough: 3 from the first base) from every base; each reached fact set is compared with its base in both argument orders and with itself; reached fact sets are de-duplicated per base by canonical form; distinct by construction; non-trivial = pair differing in at least one fact".into();
+    ctx.rule = "case = (base ontology, first edit) with every applicable second edit; all edit sequences of length 0, 1, 2 (thorough: 3) from every base; each reached fact set is compared with its base in both argument orders and with itself; reached fact sets are de-duplicated per base by canonical form; distinct by construction; non-trivial = pair differing in at least one fact".into();
     ctx.assumptions = vec![
         "replacement targets exist in both ontologies; HP:1 and HP:118 are never removed (from_bytes needs them)".into(),
         "ontologies are built from the independent v3 encoder (names <= 255 bytes)".into(),
@@ -401,7 +424,7 @@ pub fn run(ctx: &mut Ctx) {
                     if let Ok(o1) = build(&s1) {
                         compare_pair(ctx, &s1, &o1, &s2, &|| json!([format!("(from the state after {e1:?})"), format!("{e2:?}")]));
                     }
-                    if thorough && bi == 0 {
+                    if thorough {
                         for e3 in applicable_edits(&s2) {
                             let s3 = apply(&s2, &e3);
                             ctx.state();
